@@ -471,7 +471,7 @@ theorem rpcRenew2_accept_safe {fx : Bool} {rh expUH h : Nat} {e r : Rev} {fv : L
     r.filesize = e.filesize ∧ r.root = e.root ∧ e.wEnd ≤ r.wEnd := by
   unfold rpcRenew2 at hh
   res_ok' at hh
-  obtain ⟨hrh, clearing, hclr, evr, _, fp, hfp, ⟨b1, b2⟩, hbase, ⟨a, b, c⟩, hval, storage, ⟨hsub, rfl⟩, rfl⟩ := hh
+  obtain ⟨hrh, clearing, hclr, evr, _, fp, hfp, ⟨b1, b2⟩, hbase, ⟨a, b, c⟩, hval, storage, ⟨hsub, rfl⟩, tot, _, rfl⟩ := hh
   obtain ⟨rfl, rfl⟩ := renewBase_ok hbase
   obtain ⟨vh, mh, void, sf, hle, hburn, hvoid, hb, hmc, rfl, rfl, rfl⟩ := validateRenewal2_ok hval
   obtain ⟨x, y, r1, r2, hv, hm⟩ := sf.shape
@@ -514,7 +514,7 @@ theorem rpcRenew3_accept_safe {fx : Bool} {rh expUH h : Nat} {e k r : Rev} {st :
     r.filesize = e.filesize ∧ r.root = e.root ∧ e.wEnd ≤ r.wEnd := by
   unfold rpcRenew3 at hh
   res_ok' at hh
-  obtain ⟨hrh, fp, hfp, ⟨b1, b2⟩, hbase, ⟨a, b⟩, hval, rfl⟩ := hh
+  obtain ⟨hrh, fp, hfp, ⟨b1, b2⟩, hbase, ⟨a, b⟩, hval, tot, _, rfl⟩ := hh
   obtain ⟨rfl, rfl⟩ := renewBase_ok hbase
   obtain ⟨vh, mh, void, sf, hle, hburn, hvoid, hb, hmc, rfl, rfl⟩ := validateRenewal3_ok hval
   obtain ⟨x, y, r1, r2, hv, hm⟩ := sf.shape
@@ -542,10 +542,20 @@ theorem rpcRenew3_clearing_safe {fx : Bool} {rh expUH h : Nat} {e k r : Rev} {st
 
 /-! no_panic of the handler paths -/
 
+/-- the final payment of an accepted clearing revision comes out of the renter's valid payout -/
+theorem clearing_payment_le {fx : Bool} {cur fin : Rev} {pay r : Nat}
+    (h : validateClearing fx cur fin pay = .ok r) : r ≤ total cur.valid := by
+  unfold validateClearing at h
+  res_ok' at h
+  obtain ⟨_, _, _, _, _, _, _, _, _, _, _, cvr, ⟨cr, hcv0⟩, fmr, _, hle1,
+    fvh, _, cvh, ⟨cv0, cvr', hcv⟩, hle2, heq, hpay, u, hloop, rfl⟩ := h
+  rw [hcv] at hcv0; simp at hcv0; obtain ⟨rfl, _⟩ := hcv0
+  rw [hcv]; simp; omega
+
 /-- `he`: the host's own revision has a renter output (every contract the host holds was admitted by
 `validateContractFormation` / `validateContractRenewal`: exactly two valid outputs). -/
 theorem rpcRenew2_noPanic {fx : Bool} {rh expUH h : Nat} {e r : Rev} {fv : List Nat} {st : Settings}
-    (he : 0 < e.valid.length)
+    (he : 0 < e.valid.length) (hsupply : total e.valid + st.contractPrice < C128)
     (H : fx = true ∨ (2 ≤ e.valid.length ∧ BaseSafe st.contractPrice st.storagePrice st.collateral e r ∧
       st.contractPrice + baseCost st.storagePrice e r + baseCost st.collateral e r < C128)) :
     NoPanic (rpcRenew2 fx rh e r fv expUH h st) := by
@@ -553,48 +563,62 @@ theorem rpcRenew2_noPanic {fx : Bool} {rh expUH h : Nat} {e r : Rev} {fv : List 
   refine NoPanic.bind (check_noPanic _ _) fun _ _ => ?_
   refine NoPanic.bind (clearingRevision_no_panic _ _) fun _ _ => ?_
   refine NoPanic.bind (out0_noPanic he) fun _ _ => ?_
-  refine NoPanic.bind (validateClearing_noPanic (H.imp id (·.1))) fun _ _ => ?_
+  refine NoPanic.bind (validateClearing_noPanic (H.imp id (·.1))) fun fp hfp => ?_
+  have hfpLe := clearing_payment_le hfp
   refine NoPanic.bind (renewBase_noPanic (H.imp id (·.2.1))) fun ⟨b1, b2⟩ hb => ?_
   obtain ⟨rfl, rfl⟩ := renewBase_ok hb
   refine NoPanic.bind (validateRenewal2_noPanic (H.imp id (·.2.2))) fun ⟨a, b, c⟩ hv => ?_
   obtain ⟨vh, mh, void, sf, hle, hburn, hvoid, hbb, hmc, rfl, rfl, rfl⟩ := validateRenewal2_ok hv
+  refine NoPanic.bind ?_ fun _ _ => ?_
+  · intro s hs
+    have := csub_panic_iff.mp hs
+    omega
   refine NoPanic.bind ?_ fun _ _ => NoPanic.pure _
   intro s hs
-  have := csub_panic_iff.mp hs
+  have := cadd_panic_iff.mp hs
   omega
 
 theorem rpcRenew3_noPanic {fx : Bool} {rh expUH h : Nat} {e k r : Rev} {st : Settings}
-    (hr : ∀ o ∈ r.valid, o.val < C128)
+    (hr : ∀ o ∈ r.valid, o.val < C128) (hsupply : total e.valid + st.contractPrice < C128)
     (H : fx = true ∨ (2 ≤ e.valid.length ∧ BaseSafe st.renewCost st.storagePrice st.collateral e r ∧
       st.renewCost + baseCost st.storagePrice e r + baseCost st.collateral e r < C128 ∧
       st.contractPrice + (st.renewCost + baseCost st.storagePrice e r) < C128)) :
     NoPanic (rpcRenew3 fx rh e k r expUH h st) := by
   unfold rpcRenew3
   refine NoPanic.bind (check_noPanic _ _) fun _ _ => ?_
-  refine NoPanic.bind (validateClearing_noPanic (H.imp id (·.1))) fun _ _ => ?_
+  refine NoPanic.bind (validateClearing_noPanic (H.imp id (·.1))) fun fp hfp => ?_
+  have hfpLe := clearing_payment_le hfp
   refine NoPanic.bind (renewBase_noPanic (H.imp id (·.2.1))) fun ⟨b1, b2⟩ hb => ?_
   obtain ⟨rfl, rfl⟩ := renewBase_ok hb
   refine NoPanic.bind (validateRenewal3_noPanic hr (H.imp id (fun h => ⟨h.2.2.1, h.2.2.2⟩))) fun ⟨a, b⟩ _ => ?_
-  exact NoPanic.pure _
+  refine NoPanic.bind ?_ fun _ _ => NoPanic.pure _
+  intro s hs
+  have := cadd_panic_iff.mp hs
+  omega
 
-/-- **C12 no_panic, repaired variant** (`_partial`: the host's own revision has a renter output) -/
+/-- **C12 no_panic, repaired variant** (`_partial`: the host's own revision has a renter output, and
+`hsupply`: the existing contract's payout plus the contract price fit in 128 bits — total supply —
+so that the `Usage.Add` after `RenewContract` cannot overflow; it is not part of the repair) -/
 theorem rpcRenew2_no_panic_fixed_partial (rh expUH h : Nat) (e r : Rev) (fv : List Nat) (st : Settings)
-    (he : 0 < e.valid.length) : NoPanic (rpcRenew2 true rh e r fv expUH h st) := rpcRenew2_noPanic he (Or.inl rfl)
-/-- **C12 no_panic, repaired variant**, all inputs (payouts are 128-bit values) -/
-theorem rpcRenew3_no_panic_fixed (rh expUH h : Nat) (e k r : Rev) (st : Settings) (hr : ∀ o ∈ r.valid, o.val < C128) :
-    NoPanic (rpcRenew3 true rh e k r expUH h st) := rpcRenew3_noPanic hr (Or.inl rfl)
+    (he : 0 < e.valid.length) (hsupply : total e.valid + st.contractPrice < C128) :
+    NoPanic (rpcRenew2 true rh e r fv expUH h st) := rpcRenew2_noPanic he hsupply (Or.inl rfl)
+/-- **C12 no_panic, repaired variant** (payouts are 128-bit values; `hsupply` as above) -/
+theorem rpcRenew3_no_panic_fixed_partial (rh expUH h : Nat) (e k r : Rev) (st : Settings) (hr : ∀ o ∈ r.valid, o.val < C128)
+    (hsupply : total e.valid + st.contractPrice < C128) :
+    NoPanic (rpcRenew3 true rh e k r expUH h st) := rpcRenew3_noPanic hr hsupply (Or.inl rfl)
 
 /-- **C12 no_panic, current tree, partial**: no overflow in the base cost arithmetic, well-shaped existing revision -/
 theorem rpcRenew2_no_panic_partial {rh expUH h : Nat} {e r : Rev} {fv : List Nat} {st : Settings}
-    (he : 2 ≤ e.valid.length) (hb : BaseSafe st.contractPrice st.storagePrice st.collateral e r)
+    (he : 2 ≤ e.valid.length) (hsupply : total e.valid + st.contractPrice < C128)
+    (hb : BaseSafe st.contractPrice st.storagePrice st.collateral e r)
     (hs : st.contractPrice + baseCost st.storagePrice e r + baseCost st.collateral e r < C128) :
-    NoPanic (rpcRenew2 false rh e r fv expUH h st) := rpcRenew2_noPanic (by omega) (Or.inr ⟨he, hb, hs⟩)
+    NoPanic (rpcRenew2 false rh e r fv expUH h st) := rpcRenew2_noPanic (by omega) hsupply (Or.inr ⟨he, hb, hs⟩)
 theorem rpcRenew3_no_panic_partial {rh expUH h : Nat} {e k r : Rev} {st : Settings}
-    (hr : ∀ o ∈ r.valid, o.val < C128) (he : 2 ≤ e.valid.length)
+    (hr : ∀ o ∈ r.valid, o.val < C128) (he : 2 ≤ e.valid.length) (hsupply : total e.valid + st.contractPrice < C128)
     (hb : BaseSafe st.renewCost st.storagePrice st.collateral e r)
     (hs : st.renewCost + baseCost st.storagePrice e r + baseCost st.collateral e r < C128)
     (hp : st.contractPrice + (st.renewCost + baseCost st.storagePrice e r) < C128) :
-    NoPanic (rpcRenew3 false rh e k r expUH h st) := rpcRenew3_noPanic hr (Or.inr ⟨he, hb, hs, hp⟩)
+    NoPanic (rpcRenew3 false rh e k r expUH h st) := rpcRenew3_noPanic hr hsupply (Or.inr ⟨he, hb, hs, hp⟩)
 
 /-! witnesses: a remote peer crashes the CURRENT handlers before validation rejects its input -/
 
